@@ -11,7 +11,7 @@ namespace {
 inline const uint8_t *D(const Bytes &b) { static uint8_t z[8]; return b.empty() ? z : b.data(); }
 inline uint8_t *D(Bytes &b) { static uint8_t z[8]; return b.empty() ? z : b.data(); }
 
-const char *PCLS[] = { "random", "low-order", "near-p", "near-2^255", "small", "pow2", "p-pow2", "limb-ones", "low-order+random-high" };
+const char *PCLS[] = { "random", "low-order", "near-p", "near-2^255", "small", "pow2", "p-pow2", "limb-ones", "low-order+random-high", "solved-output" };
 const char *SCLS[] = { "random", "clamp-pattern", "zero", "all-ff", "pow2", "small", "sparse" };
 
 struct Case {
@@ -186,8 +186,69 @@ void explore_loworder(Ctx &ctx) {
             }
 }
 
+
+// ------------------------------------------------------------------ solved outputs
+// Field-arithmetic / final-reduction defects need one specific 255-bit VALUE to appear as the result, which random inputs
+// reach with probability ~2^-200.  Here the result is chosen first (all-ones limbs in radix 2^51, 2^25.5 and 2^64 with one limb
+// perturbed, values just below p, tiny values) and the input point is SOLVED for:  P = (n^-1 mod ord) * Q*  where ord is the
+// prime order of Q* on the curve or on its twist, so that X25519(n, P) = Q* exactly.  The oracle is still the RFC 7748 model.
+bool solve_point(const ref::U &ustar, const Bytes &scalar, Bytes &point) {
+    using namespace ref;
+    U L = L25519(), p = P25519();
+    U Lt = u_div(u_sub(u_add(u_add(p, p), U(2)), u_mul_small(L, 8)), U(4));      // twist order = 4 * Lt
+    if (u_is_zero(fp_red(ustar))) return false;
+    U ord;
+    if (u_is_zero(x25519_ladder(L, ustar))) ord = L; else if (u_is_zero(x25519_ladder(Lt, ustar))) ord = Lt; else return false;
+    U n = u_from_le(x25519_clamp(scalar));
+    U nm = u_mod(n, ord); if (u_is_zero(nm)) return false;
+    U P = x25519_ladder(u_invmod_prime(nm, ord), ustar);
+    point = u_to_le(P, 32);
+    return x25519(scalar, point) == u_to_le(fp_red(ustar), 32);     // aim check (fails e.g. for points of order 2L)
+}
+std::vector<ref::U> solved_targets(Rng &r, bool thorough) {
+    using namespace ref;
+    std::vector<U> t; U p = P25519();
+    static const int B51[] = { 0, 51, 102, 153, 204, 255 }, B64[] = { 0, 64, 128, 192, 255 }, B26[] = { 0, 26, 51, 77, 102, 128, 153, 179, 204, 230, 255 };
+    auto add_radix = [&](const int *b, int n) {
+        for (int li = 0; li + 1 < n; li++) {
+            int lo = b[li], hi = b[li + 1];
+            for (int rep = 0; rep < (thorough ? 40 : 14); rep++) {
+                // value = p + j - d * 2^lo : every limb all ones except limb li (and limb 0 >= 2^k - 19)
+                U d = u_from_le(r.bytes(8)); d = u_low_bits(d, hi - lo); if (u_is_zero(d)) d = U(1); if (rep == 0) d = U(1);
+                U v = u_sub(u_add(p, U(r.below(19))), u_shl(d, lo));
+                if (u_cmp(v, p) < 0) t.push_back(v);
+                // one limb all zero, the others all ones
+                U w = u_sub(u_sub(u_shl(U(1), 255), U(1)), u_shl(u_sub(u_shl(U(1), hi - lo), U(1)), lo));
+                if (u_cmp(w, p) < 0 && rep == 0) t.push_back(w);
+            }
+        }
+    };
+    add_radix(B51, 6); add_radix(B64, 5); add_radix(B26, 11);
+    for (uint64_t j = 1; j <= (thorough ? 40u : 20u); j++) { t.push_back(U(j)); t.push_back(u_sub(p, U(j))); }
+    for (int k : { 25, 26, 50, 51, 52, 63, 64, 101, 102, 127, 128, 153, 204, 230, 254 }) { t.push_back(u_shl(U(1), k)); t.push_back(u_sub(u_shl(U(1), k), U(1))); t.push_back(u_sub(p, u_shl(U(1), k))); }
+    return t;
+}
+void explore_solved(Ctx &ctx) {
+    auto masks = masks05();
+    Rng r = ctx.rng("c05-solved");
+    auto targets = solved_targets(r, ctx.thorough());
+    uint64_t idx = 0;
+    for (auto &t : targets) {
+        uint64_t rs = r.next();
+        if (!ctx.mine(idx++)) continue;
+        Rng rr(rs);
+        Bytes s = rr.bytes(32), pt;
+        if (!solve_point(t, s, pt)) { ctx.cls("solved-output:candidate-not-of-prime-order"); continue; }     // only prime-order values can be results at all
+        ctx.cls("solved-output:aimed");
+        for (int rep = 0; rep < (ctx.thorough() ? 4 : 2); rep++) {
+            if (rep) { s = rr.bytes(32); if (!solve_point(t, s, pt)) break; }
+            for (unsigned long m : masks) { Case c{ 0, s, pt, Bytes(), 9, 0, m }; exec_case(ctx, c, run, ckey(c), true); }
+        }
+    }
+}
+
 bool replay(const KV &k, std::string &msg) { Case c = Case::from(k); return run(c, msg); }
 
 }  // namespace
 
-std::vector<Sub> vh_subs() { return { { "loworder", explore_loworder, replay }, { "scalarmult", explore_scalarmult, replay }, { "agreement", explore_agreement, replay } }; }
+std::vector<Sub> vh_subs() { return { { "loworder", explore_loworder, replay }, { "solved_outputs", explore_solved, replay }, { "scalarmult", explore_scalarmult, replay }, { "agreement", explore_agreement, replay } }; }
